@@ -11,7 +11,8 @@ Go sites mirrored (REPAIRED behaviour: c2aa5a1, 8ec6c57 and b8504d9 = fixes/C14-
   components/providers/http/provider.go NewProvider                 the decoder gets Limit = 0 (`scan ⟨0, passes⟩`)
   components/providers/http/provider/provider.go runFullScan        `fullScan`   — filter AFTER Decoder.Scan, own delivered-counter,
                                                                      "a complete pass delivered nothing ⇒ ErrNoAmmo"
-  components/providers/http/provider/provider.go loadAmmo           the `filter chosen` in `httpRun` — filter BEFORE the cyclic replay
+  components/providers/http/provider/provider.go loadAmmo           the `filter chosen` in `httpRun` — filter BEFORE the cyclic replay;
+                                                                     `loadFail` — what it makes of an error of LoadAmmo (cf3451c)
   components/providers/http/provider/provider.go runPreloaded       `Model.C08.runPreloaded`
   components/providers/http/provider/provider.go Run                `httpRun` (sentinels of the preloaded path ↦ nil; sink closed)
 
@@ -89,14 +90,30 @@ def fullScan {σ α : Type} (scan : σ → ScanRes × σ) (passNum : σ → Nat)
       | (.errNoAmmo, _) => some (out, .errNoAmmo)
       | (.unexpected, _) => some (out, .errOther)
 
-/-- `Provider.Run`: `defer close(p.Sink)` on every path.  Preload: LoadAmmo (whole file), filter, cyclic replay,
-sentinels ↦ nil.  Streaming: `fullScan` over a decoder constructed with Limit = 0. -/
+/-- `Provider.loadAmmo` when `Decoder.LoadAmmo` failed with an error of class `e` (`e ≠ .nil`) while the context is
+(`c`) / is not cancelled (/repo cf3451c): a cancel that ended the load is handed on as the context's own error
+(context.Canceled itself — what runFullScan and runPreloaded return for a cancel, too); every other error is wrapped
+with `%w` ("cant LoadAmmo, err: …"), so `errors.Is` still finds in it what it found in the decoder's error.  In
+classes of errors (`RunRes` = what errors.Is sees, which is what the Spec looks at) both cases hand the class on:
+`loadFail c e = e` (`loadFail_id`); nothing has been delivered and nothing will be.  The regenerated error branch of
+loadAmmo is tied to this in `Bridge.C14.loadFail_source`. -/
+def loadFail (c : Bool) (e : RunRes) : RunRes :=
+  if c = true ∧ e = .canceled then .canceled else e
+
+@[simp] theorem loadFail_id (c : Bool) (e : RunRes) : loadFail c e = e := by
+  unfold loadFail; split
+  · next h => exact h.2.symm
+  · rfl
+
+/-- `Provider.Run`: `defer close(p.Sink)` on every path.  Preload: LoadAmmo (whole file; an error of it ends Run with
+`loadFail` — while it runs nothing has been delivered, so the context is cancelled iff `cancelled cancelAt 0`), filter,
+cyclic replay, sentinels ↦ nil.  Streaming: `fullScan` over a decoder constructed with Limit = 0. -/
 def httpRun {σ α : Type} (scan : Bounds → σ → ScanRes × σ) (passNum : σ → Nat) (init : σ) (file : List α)
     (chosen : α → Bool) (preload : Bool) (b : Bounds) (cancelAt : Option Nat) (fuel : Nat) : Option (Outcome α) :=
   if preload then
     match loadAmmo scan file fuel init [] with
     | none => none
-    | some (.error e) => some ⟨[], e, true⟩
+    | some (.error e) => some ⟨[], loadFail (cancelled cancelAt 0) e, true⟩
     | some (.ok ammos) =>
       match runPreloaded (ammos.filter chosen) b cancelAt fuel with
       | none => none
@@ -114,13 +131,14 @@ def scanChecksCtx : Fmt → Bool
 
 /-- a context that is ALREADY cancelled when `Run` is called (`cancelAt = some 0`; while `LoadAmmo` runs nothing has
 been delivered, so this is the only way the loading pass can see a cancelled context): `LoadAmmo` of a decoder that
-looks at the context fails with context.Canceled ("cant LoadAmmo, err: context canceled") before anything is loaded -/
+looks at the context fails with context.Canceled before anything is loaded, and `Provider.loadAmmo` hands that on as
+`loadFail true .canceled` = context.Canceled -/
 def loadSeesCancel (k : Fmt) (preload : Bool) (cancelAt : Option Nat) : Bool :=
   preload && scanChecksCtx k && cancelled cancelAt 0
 
 def runFuel {α : Type} (k : Fmt) (preload : Bool) (file : List α) (chosen : α → Bool) (b : Bounds)
     (cancelAt : Option Nat) (fuel : Nat) : Option (Outcome α) :=
-  if loadSeesCancel k preload cancelAt then some ⟨[], .canceled, true⟩ else
+  if loadSeesCancel k preload cancelAt then some ⟨[], loadFail true .canceled, true⟩ else
   match k with
   | .uri | .uripost | .raw =>
     httpRun (fun b => scanStream .eofCheck b file.length) (·.passNum) Dec.init file chosen preload b cancelAt fuel
